@@ -6,6 +6,13 @@ model Parser/Convert/Serde and the extracted checkers of LoaderCheck.v
 
 Observation classes (diffs):  LOAD  Ok/Err/Panic and the basic layout of parse+convert
                               SERDE serde_json::to_value(keys::Layout)
+                              TEXT  the JSON text layer (coq/theories/JsonText.v): the bytes of
+                                    serde_json::to_string_pretty / to_string and of the saved layout file
+                                    against print_pretty / print_compact / save_text; the real readers
+                                    (from_str, from_slice, from_reader into Value) against parse_text on a
+                                    stream of generated texts (harness/src/engines/loader_text.rs); the real
+                                    load_layout_from_file on the saved file and on re-spaced / mutated
+                                    layout files against load_text
 Checker clauses (hits):       C14.panic, C14.accepted_wf, C15.roundtrip, C13.expand"""
 import os, json, re, time, glob, shutil
 
@@ -93,11 +100,17 @@ def run(ctx):
             "evaluations": summary.get("cases", 0) + summary.get("subst_compared", 0),
             "distinct_nontrivial": summary.get("distinct_nontrivial", 0),
             "distinct_inputs": summary.get("distinct", 0),
-            "traces_validated_against_impl": summary.get("load_compared", 0) + summary.get("serde_compared", 0) + summary.get("subst_compared", 0),
+            "traces_validated_against_impl": summary.get("load_compared", 0) + summary.get("serde_compared", 0) + summary.get("subst_compared", 0)
+                                             + summary.get("text_printed_compared", 0) + summary.get("text_parsed_compared", 0) + summary.get("text_loads_compared", 0),
             "loads_compared": summary.get("load_compared", 0),
             "serde_values_compared": summary.get("serde_compared", 0),
             "case_substitutions_compared": summary.get("subst_compared", 0),
             "checker_runs": summary.get("checker_runs", 0),
+            "text_cases": summary.get("text_cases", 0),
+            "texts_printed_compared": summary.get("text_printed_compared", 0),
+            "texts_parsed_compared": summary.get("text_parsed_compared", 0),
+            "text_loads_compared": summary.get("text_loads_compared", 0),
+            "text_cases_by_kind_ok_err": dist.get("text_cases_by_kind_ok_err", {}),
             "disagreements_checked": len(diffs),
             "mapper_steps_under_catch_unwind": dist.get("mapper_steps", 0),
             "input_distribution": dist,
